@@ -7,6 +7,10 @@ from .. import build, corpus, fmt, run
 from ..common import REPO, case_dir, pmap, rng, sha
 
 LEVEL = 'exploration'
+# small files given ahead of the input in multi-file deliveries (each accepted on its own with exit 0)
+COMPANIONS = [('zz_guard.h', b'#ifndef G_H\n#define G_H\nint g;\n#endif'),
+              ('zz_cmt.c', b'int a;\n// ends in a comment'),
+              ('zz_qt.cpp', b'void t()\n{\n\tconnect( m,\n\t         SIGNAL(s(QString)),\n\t         SLOT(d(QString)) );\n}\n')]
 PROP = 'C10'
 
 CONFIG_POOL = ['default', 'etc/ben.cfg', 'etc/linux.cfg', 'etc/kr-indent.cfg', 'etc/gnu-indent.cfg', 'etc/klaus.cfg',
@@ -135,6 +139,21 @@ def _case(t):
             r = run.run(b, ['-c', cfg] + lopt + ['-F', '-'], stdin=(name + '\n').encode(), cwd=d)
             s = created('-F -', d, [name + '.uncrustify'])
             cmp('-F - ' + ltag, r.status, s.get(name + '.uncrustify'))
+            # 9b the file is one of several in the list: positional and -F, after a companion that leaves the tokenizer in an odd state
+            if lopt and ref_key[0] == 0 and lang in ('C', 'CPP', 'OC', 'OC+'):
+                for cname, cdata in COMPANIONS:
+                    d = fresh('multi' + ltag + cname)
+                    with open(os.path.join(d, cname), 'wb') as f:
+                        f.write(cdata)
+                    r = run.run(b, ['-c', cfg] + lopt + [cname, name], cwd=d)
+                    s = snapshot(d)
+                    cmp('positional after ' + cname, r.status, s.get(name + '.uncrustify'))
+                    d = fresh('multiF' + ltag + cname)
+                    with open(os.path.join(d, cname), 'wb') as f:
+                        f.write(cdata)
+                    r = run.run(b, ['-c', cfg] + lopt + ['-F', '-'], stdin=(cname + '\n' + name + '\n').encode(), cwd=d)
+                    s = snapshot(d)
+                    cmp('-F - after ' + cname, r.status, s.get(name + '.uncrustify'))
             # 10 --replace
             d = fresh('rep' + ltag)
             r = run.run(b, ['-c', cfg] + lopt + ['--replace', name], cwd=d)
